@@ -2,6 +2,7 @@ package rules
 
 import (
 	"go/ast"
+	"go/token"
 	"go/types"
 
 	"verif/checker/internal/astx"
@@ -226,6 +227,46 @@ func builtFields(info *types.Info, body ast.Node, lit *ast.CompositeLit) map[*ty
 						out[f] = as.Rhs[i]
 					}
 				}
+			}
+		}
+		return true
+	})
+	return out
+}
+
+// objWrittenIn reports whether obj is assigned, incremented or has its address taken inside n.
+func objWrittenIn(info *types.Info, n ast.Node, obj types.Object) bool {
+	found := false
+	ast.Inspect(n, func(x ast.Node) bool {
+		switch y := x.(type) {
+		case *ast.AssignStmt:
+			for _, l := range y.Lhs {
+				if id, ok := astx.Unparen(l).(*ast.Ident); ok && astx.ObjOf(info, id) == obj && info.Defs[id] == nil {
+					found = true
+				}
+			}
+		case *ast.IncDecStmt:
+			if astx.ObjOf(info, y.X) == obj {
+				found = true
+			}
+		case *ast.UnaryExpr:
+			if y.Op == token.AND && astx.ObjOf(info, y.X) == obj {
+				found = true
+			}
+		}
+		return !found
+	})
+	return found
+}
+
+// enclosingLoop returns the innermost for/range statement of body that contains inner.
+func enclosingLoop(body ast.Node, inner ast.Node) ast.Node {
+	var out ast.Node
+	ast.Inspect(body, func(n ast.Node) bool {
+		switch n.(type) {
+		case *ast.ForStmt, *ast.RangeStmt:
+			if astx.Contains(n, inner) {
+				out = n
 			}
 		}
 		return true
